@@ -13,7 +13,7 @@ from .. import ir
 from ..paths import paths, walk, root, Raised
 from ..report import AnalysisError
 from .algebra import identical
-from .common import const_value
+from .common import const_value, zero_test, nonzero_test
 
 META = {
     "explanation": "Typestate/COUNT over exception-aware paths of MultiValueTracker.update (per-iteration paths of the "
@@ -318,14 +318,14 @@ def _getters(run, prog, cls):
             seen_kinds.add("raw")
             continue
         if v[0] == "comp" and v[1] == "dict" and const_value(v[5]) == 0:
-            zero_test = any(_is_zero_test(g, total_forms) for g in ctx.guards)
-            if in_handler and not zero_test:
+            zero_t = any(zero_test(g, total_forms) for g in ctx.guards)
+            if in_handler and not zero_t:
                 run.fail("ZERODIV", "N1.zero", f"{s.path}:{ev.line}", fq,
                          f"zero fallback in `except {'/'.join(in_handler[0].exc)}`",
                          "the all-zero fallback is reached only through `except ZeroDivisionError`; NumPy scalar values "
                          "divide to inf/nan without raising, so a zero sum yields NaN/inf")
             else:
-                run.check(zero_test, "ZERODIV", "N1.zero", f"{s.path}:{ev.line}", fq, f"zero fallback under [{gtxt}]",
+                run.check(zero_t, "ZERODIV", "N1.zero", f"{s.path}:{ev.line}", fq, f"zero fallback under [{gtxt}]",
                           f"the all-zero result must be selected by an explicit test `sum == 0`; it is returned under [{gtxt}]",
                           "zero sum: explicit == 0 test selects the all-0.0 dict")
             keys_ok = v[3] == rawt or (v[3][0] == "res" and v[3][2] in (".keys", ".items") and v[3][3][0] == rawt)
@@ -342,7 +342,7 @@ def _getters(run, prog, cls):
                       f"normalised value {ir.show_nl(v[5])}",
                       f"every value must be divided by the sum of all tracked values; found {ir.show_nl(v[5])}",
                       "value / sum(all values) for every key")
-            nonzero = any(_is_zero_test(ir.negate(g), total_forms) or _is_nonzero(g, total_forms) for g in ctx.guards)
+            nonzero = any(nonzero_test(g, total_forms) for g in ctx.guards)
             in_try = [t for t, h in ctx.tries if h == "body"]
             if not nonzero:
                 how = "guarded only by `except ZeroDivisionError`" if in_try else "unguarded"
